@@ -1,0 +1,17 @@
+//go:build verif
+
+// Contract for the recovery of the commitment point of an ECDSA signature (comment-only; installed by /verif/gcv
+// gen-contracts); conventions as in zz_verif_contracts_ecdsa.go. The x-coordinate is r, or r + n when bit 1 of
+// the recovery id is set, with n the order of the scalar field.
+
+package ecdsa
+
+//@ func recoverP
+//@ layer bigint big.Int ring fp.Element
+//@ option field fr
+//@ option distribute
+//@ option nomerge
+//@ ensures[range] isnil(result1) ==> 0 < *r && *r < q
+//@ ensures[x] isnil(result1) ==> result0.X == ofint(*r + ((v / 2) % 2) * q)
+//@ modifies nothing
+//@ end
